@@ -33,8 +33,25 @@ def build(target):
     return os.path.join(BIN_DIR, target)
 
 
+GUARD_DIR = os.path.join(FUZZ, "target-guard")
+
+
+def build_guard(target):
+    """The same target without sanitizer but with the guard allocator (harness/lmcheck/src/guard.rs): makes
+    out-of-bounds WRITES of the kernels' inline-asm non-temporal stores observable, which ASan cannot see."""
+    r = sh(["cargo", "+nightly", "fuzz", "build", "-s", "none", "--features", "guard-alloc", "--target-dir", GUARD_DIR, target], cwd=VERIF)
+    if r.returncode != 0:
+        sys.stderr.write(r.stdout[-4000:])
+        print("BUILD FAILED (inconclusive, not a violation): cargo fuzz build -s none --features guard-alloc " + target, file=sys.stderr)
+        sys.exit(2)
+    return os.path.join(GUARD_DIR, "x86_64-unknown-linux-gnu", "release", target)
+
+
 def signature(output):
     """Stable signature of a crash: sanitizer summary (kind + function) or panic site, no addresses / line numbers."""
+    m = re.search(r"GUARD-ALLOC: .* guard bytes overwritten (before|after) the block", output)
+    if m:
+        return "guard-alloc:write-%s-heap-block" % m.group(1)
     m = re.search(r"SUMMARY: AddressSanitizer: (\S+) .*? in (\S+)", output)
     if m:
         frames = re.findall(r"#\d+ 0x[0-9a-f]+ in (\S+) (/repo/[^\s:]+)", output)
@@ -103,7 +120,7 @@ def replay(path):
         print("cannot tell the fuzz target of %s (expected <target>-*.fuzz)" % path, file=sys.stderr)
         return 2
     prop = next(k for k, v in TARGETS.items() if v == target)
-    binary = build(target)
+    binary = build_guard(target) if "-guard-" in base else build(target)
     rc, out = run_one(binary, path)
     if rc == 0:
         print("PASS property=%s target=%s" % (prop, target))
@@ -214,6 +231,32 @@ def main():
         files = [v[0] for v in inputs.values()]
         for i in range(0, len(files), 400):
             sh([binary] + files[i:i + 400] + ["-rss_limit_mb=4096"], cwd=FUZZ, env=dict(ENV, LM_FUZZ_STATS=stats_file))
+        # ---- guard-allocator pass: every input of the final corpora (and the committed regression inputs)
+        #      through the sanitizer-free build whose allocator verifies guard bytes around each heap block
+        gbin = build_guard(target)
+        guard_inputs = files + sorted(glob.glob(os.path.join(VERIF, "regress", prop, target + "-*.fuzz")))
+        guard_runs = 0
+        for i in range(0, len(guard_inputs), 400):
+            batch = guard_inputs[i:i + 400]
+            while batch:
+                r = sh([gbin] + batch + ["-rss_limit_mb=4096", "-timeout=60"], cwd=FUZZ)
+                if r.returncode == 0:
+                    guard_runs += len(batch)
+                    break
+                # the input being run when the process died is the last one announced
+                ran = re.findall(r"^Running: (\S+)", r.stdout, re.M)
+                guard_runs += len(ran)
+                if not ran:
+                    break
+                bad = ran[-1]
+                data = open(bad, "rb").read()
+                dst_dir = os.path.join(VERIF, "replays", prop)
+                os.makedirs(dst_dir, exist_ok=True)
+                dst = os.path.join(dst_dir, "%s-guard-%s.fuzz" % (target, hashlib.sha1(data).hexdigest()[:16]))
+                shutil.copy(bad, dst)
+                judge(signature(r.stdout), r.stdout, dst)
+                batch = batch[batch.index(bad) + 1:] if bad in batch else []
+        classes["replayed-under-guard-allocator"] = guard_runs
         seen = set()
         for line in open(stats_file) if os.path.exists(stats_file) else []:
             try:
@@ -238,7 +281,9 @@ def main():
         rule = ("libFuzzer (ASan, debug assertions) on target c06_ops: bytes decoded into <= 48 in-contract API calls on a pool of live objects "
                 "(encode / stripe / configure_wrap / score f32+u8 / max-argmax-threshold / scanner / sampler / clone / dense matrix / sample / conversions, "
                 "every backend and forced dispatcher arm); distinct = distinct op-class records over the final corpus; non-trivial = >= 3 ops with a SIMD kernel "
-                "run on an object that was resized or reused")
+                "run on an object that was resized or reused; every input of the final corpora is then replayed through a sanitizer-free build with a guard "
+                "allocator (pattern bytes around every heap block, verified on free), because the kernels' non-temporal stores are inline asm and their "
+                "out-of-bounds writes are invisible to AddressSanitizer")
     else:
         names = ["jaspar", "jaspar16-dna", "jaspar16-protein", "transfac-dna", "transfac-protein", "uniprobe-dna", "uniprobe-protein"]
         for h, (f, b) in inputs.items():
